@@ -449,6 +449,29 @@ pub fn run(tier: Tier) -> i32 {
             check_net(&scratch, &nets[i as usize], i as usize, tier, st);
         }
     });
+    // long routes: chains of 1023 / 1024 / 1100 edges with a side branch (renderers that handle long inputs in pieces or in
+    // parallel must still keep the route's order); rendered from this thread, so that the renderers see the default worker pool
+    let long: Vec<Net> = [1023usize, 1024, 1100]
+        .iter()
+        .map(|l| {
+            let mut edges: Vec<(usize, usize, f64)> = (0..*l).map(|i| (i, i + 1, 1.0 + (i % 7) as f64)).collect();
+            // a branch off the middle that rejoins further on (a second, dearer way) and a dead end
+            edges.push((l / 2, l / 2 + 2, 40.0));
+            edges.push((l / 3, l + 1, 1.0));
+            Net { n: l + 2, edges, xy: None }
+        })
+        .collect();
+    for (i, net) in long.iter().enumerate() {
+        // the destination of check_net is the last vertex: the dead end; make the chain's end the last vertex instead
+        let l = net.n - 2;
+        let mut net = net.clone();
+        for e in net.edges.iter_mut() {
+            let sw = |v: usize| if v == l { l + 1 } else if v == l + 1 { l } else { v };
+            *e = (sw(e.0), sw(e.1), e.2);
+        }
+        check_net(&scratch, &net, 3 * (100_000 + i), tier, &mut st);
+    }
+    st.notes.insert("long routes: chains of 1023, 1024 and 1100 edges rendered in every format".into());
     app_level(&scratch, &mut st);
     let desc: Vec<String> = specs.iter().map(|s| s.describe()).collect();
     finish(
